@@ -56,14 +56,18 @@ package sqlite
 //@ func (*SQLiteStore).streamBatch
 //@   props C11
 //@   requires s != nil && rows != nil && eventCount != nil && iterErr != nil && yield != nil && rowpos(payload(rows)) == 0
-//@   requires 0 <= *eventCount && *eventCount <= 1000000000000000000
+// the counter never overflows because it never exceeds the (int64) position of
+// the last row counted: the rows of a batch lie strictly after the cursor
+//@   requires isSelectAfter(rowsQuery(payload(rows))) && 0 <= payload(rowsArg(payload(rows), 0))
+//@   requires 0 <= *eventCount && *eventCount <= payload(rowsArg(payload(rows), 0))
 //@   requires exclusive(eventCount)
 //@   requires exclusive(iterErr)
 //@   loop 1 invariant [C11.batch.last] (batchCount > 0 ==> lastPos == scancolInt(payload(rows), batchCount - 1, 0)) && (batchCount == 0 ==> lastPos == 0)
 //@   loop 1 invariant [C11.batch.loop] batchCount == rowpos(payload(rows)) && 0 <= batchCount && batchCount <= rowsAvail(payload(rows)) &&
-//@        cnt(yieldElem) == batchCount && cnt(yieldErr1) == 0 && cnt(yieldErr3) == 0 && cnt(yieldErr4) == 0 && 0 <= *eventCount && *eventCount <= 1000000000000000000 + batchCount
+//@        cnt(yieldElem) == batchCount && cnt(yieldErr1) == 0 && cnt(yieldErr3) == 0 && cnt(yieldErr4) == 0 && *eventCount == loopentry(*eventCount) + batchCount
 //@   ensures [C11.batch.completeOnlyIfNoErr] cont ==> !rowsFailed(payload(rows)) && batchCount == rowsTotal(payload(rows))
 //@   ensures [C11.batch.lastPos] (batchCount > 0 ==> lastPos == scancolInt(payload(rows), batchCount - 1, 0)) && (batchCount == 0 ==> lastPos == 0) && 0 <= batchCount
+//@   ensures [C11.batch.counter] 0 <= *eventCount && (batchCount > 0 ==> *eventCount <= lastPos) && (batchCount == 0 && cont ==> *eventCount == old(*eventCount))
 //@   ensures [C11.batch.count] cnt(yieldElem) <= rowsAvail(payload(rows)) && (cont ==> cnt(yieldElem) == batchCount)
 //@   ensures [C11.batch.errReported] cont || cnt(yieldErr1) + cnt(yieldErr3) + cnt(yieldErr4) == 1 || (cnt(yieldElem) > 0 && !lastres(yieldElem, Bool))
 //@   ensures [C11.batch.iterErr] rowsFailed(payload(rows)) && (cnt(yieldElem) == 0 || lastres(yieldElem, Bool)) && cnt(yieldErr1) == 0 ==> cnt(yieldErr3) == 1 && lastarg(yieldErr3, 1) == nil && lastarg(yieldErr3, 2, Iface) != nil && !cont
@@ -77,6 +81,7 @@ package sqlite
 //@   loop 1 owned events
 //@   ensures [C10.scan.all] err == nil ==> len(result0) == rowsTotal(payload(rows)) && !rowsFailed(payload(rows)) &&
 //@        (forall k int :: {result0[k]} 0 <= k && k < len(result0) ==> result0[k] != nil && result0[k].Offset == dec(scancolInt(payload(rows), k, 0)))
+//@   ensures owned(result0)
 //@   ensures [C10.scan.errChecked] rowsFailed(payload(rows)) ==> err != nil
 //@   ensures [C10.scan.closed] cnt(closeCall) == 1
 
@@ -105,6 +110,7 @@ package sqlite
 //@ def SQL_READFROM() "SELECT position, type, data, timestamp FROM events WHERE position > ? ORDER BY position"
 //@ def SQL_SAVE() "INSERT INTO subscription_positions (subscription_id, position, updated_at)\n\t\t\tVALUES (?, ?, CURRENT_TIMESTAMP)\n\t\t\tON CONFLICT(subscription_id) DO UPDATE SET position = excluded.position, updated_at = CURRENT_TIMESTAMP"
 //@ def SQL_LOAD() "SELECT position FROM subscription_positions WHERE subscription_id = ?"
+//@ def isSelectAfter(q) q == SQL_READ() || q == SQL_READFROM()
 //@ def StmtInv(s) s.appendStmt != nil && s.readStmt != nil && s.readFromStmt != nil && s.saveOffsetStmt != nil && s.loadOffsetStmt != nil &&
 //@     stmtText(s.appendStmt) == SQL_APPEND() && stmtText(s.readStmt) == SQL_READ() && stmtText(s.readFromStmt) == SQL_READFROM() &&
 //@     stmtText(s.saveOffsetStmt) == SQL_SAVE() && stmtText(s.loadOffsetStmt) == SQL_LOAD()
@@ -203,10 +209,10 @@ package sqlite
 //@ func (*SQLiteStore).streamBatched
 //@   props C11
 //@   requires s != nil && ctx != nil && s.db != nil && s.cfg != nil && eventCount != nil && iterErr != nil && yield != nil
-//@   requires 0 <= *eventCount && *eventCount <= 1000000
+//@   requires 0 <= fromPosition && 0 <= *eventCount && *eventCount <= fromPosition && s.cfg.streamBatchSize > 0
 //@   requires exclusive(eventCount)
 //@   requires exclusive(iterErr)
 //@   loop 1 invariant [C11.batched.cursor] currentPos == ite(cnt(batchCall) == 0, fromPosition, lastresi(batchCall, 1)) && (cnt(batchCall) > 0 ==> lastresi(batchCall, 2, Bool) && lastresi(batchCall, 0) >= batchSize)
-//@   loop 1 invariant [C11.batched.count] 0 <= *eventCount && *eventCount <= 1000000 + cnt(batchCall) * 1000000000000000000
+//@   loop 1 invariant [C11.batched.count] 0 <= *eventCount && *eventCount <= currentPos && 0 <= currentPos
 //@   at call:(*DB).QueryContext assert [C11.batched.query] query == SQL_READ()
 //@   at call:(*SQLiteStore).streamBatch assert [C11.batched.args] payload(rowsArg(rows, 0)) == currentPos && payload(rowsArg(rows, 1)) == batchSize
